@@ -21,6 +21,8 @@ var Values = []string{
 	// values that read like option keywords: a handler (or the log writer) that scans for options by
 	// content instead of by position trips over them
 	"px", "EX", "nx", "GET", "KEEPTTL", "PERSIST", "WITHSCORES", "LIMIT", "COUNT",
+	// integers that need more than 53 bits
+	"9007199254740993", "-9007199254740993", "4611686018427387905",
 }
 
 // PlainValues contains no numeric-looking strings and no control bytes.
